@@ -12,8 +12,9 @@ package mem
 
 //@ func (*Service).FetchAccounts
 //@ requires s != nil && mapsWf(s)
-//@ ensures [all] result1 == nil ==> result0 != nil && (forall n string :: (n in result0) <==> known(s, wanW(path), n)) && (forall n string :: n in result0 ==> result0[n] == accountOf(s, wanW(path), n))
-//@ ensures [found] wanOk(path) && ((wanW(path) in s.walletAccounts) || (wanW(path) in s.rwWalletAccounts)) ==> result1 == nil
+//@ requires [cache] cacheWf(s)
+//@ ensures [all] result1 == nil ==> result0 != nil && (forall n string :: (n in result0) <==> known(s, wanW(path), n)) && (forall n string :: n in result0 ==> result0[n] != nil && result0[n] == accountOf(s, wanW(path), n))
+//@ ensures [found] (result1 == nil) <==> (wanOk(path) && ((wanW(path) in s.walletAccounts) || (wanW(path) in s.rwWalletAccounts)))
 //@ loop #1
 //@ invariant [ctx] allWalletAccounts != nil && fresh(allWalletAccounts) && rwExists && rwWalletAccounts == s.rwWalletAccounts[wanW(path)] && (wanW(path) in s.rwWalletAccounts) && (`exists` <==> (wanW(path) in s.walletAccounts)) && (`exists` ==> walletAccounts == s.walletAccounts[wanW(path)]) && (!`exists` ==> walletAccounts == nil)
 //@ invariant [sub] forall n string :: visited()[n] ==> `exists` && n in s.walletAccounts[wanW(path)]
@@ -36,3 +37,26 @@ package mem
 //@ ensures [wf3] forall w string :: w in s.walletAccounts ==> s.walletAccounts[w] != nil && allocated(s.walletAccounts[w])
 //@ ensures [wf4] forall w string, v string :: w in s.rwWalletAccounts && v in s.walletAccounts ==> s.rwWalletAccounts[w] != s.walletAccounts[v]
 //@ ensures [wf5] forall w string, v string :: w in s.rwWalletAccounts && v in s.rwWalletAccounts && w != v ==> s.rwWalletAccounts[w] != s.rwWalletAccounts[v]
+
+// ---- the fetcher interface read through this implementation (refinement "model" of the interface's functions) ----
+// object invariant of the cache (established by populateCaches, which is not verified; assumed at the interface):
+// cached accounts and wallets are non-nil and an account is cached under the wallet it belongs to
+//@ spec cacheWf(s *Service) bool = mapsWf(s) && (forall w string :: w in s.wallets ==> s.wallets[w] != nil) && (forall w string, n string :: w in s.walletAccounts && n in s.walletAccounts[w] ==> s.walletAccounts[w][n] != nil && w in s.wallets && walletOf(s.walletAccounts[w][n]) == s.wallets[w]) && (forall w string, n string :: w in s.rwWalletAccounts && n in s.rwWalletAccounts[w] ==> s.rwWalletAccounts[w][n] != nil && w in s.wallets && walletOf(s.rwWalletAccounts[w][n]) == s.wallets[w])
+//@ spec accountByName(s *Service, w string, n string) any = if w in s.walletAccounts && n in s.walletAccounts[w] then s.walletAccounts[w][n] else s.rwWalletAccounts[w][n]
+//@ spec memFetchedByName(f any, path string) any = accountByName(unbox(f, "*Service"), wanW(path), wanA(path))
+//@ spec memWalletFound(f any, path string) bool = wanOk(path) && wanW(path) in unbox(f, "*Service").wallets
+//@ spec memWalletFor(f any, path string) any = unbox(f, "*Service").wallets[wanW(path)]
+//@ spec memAccountsFound(f any, path string) bool = wanOk(path) && (wanW(path) in unbox(f, "*Service").walletAccounts || wanW(path) in unbox(f, "*Service").rwWalletAccounts)
+//@ spec memHasAcc(f any, path string, n string) bool = known(unbox(f, "*Service"), wanW(path), n)
+//@ spec memAccNamed(f any, path string, n string) any = accountOf(unbox(f, "*Service"), wanW(path), n)
+
+//@ func (*Service).FetchWallet
+//@ flag noalloc
+//@ requires s != nil && cacheWf(s)
+//@ ensures [found] (result1 == nil) <==> (wanOk(path) && wanW(path) in s.wallets)
+//@ ensures [wallet] result1 == nil ==> result0 != nil && result0 == s.wallets[wanW(path)]
+
+//@ func (*Service).FetchAccount
+//@ flag noalloc
+//@ requires s != nil && cacheWf(s)
+//@ ensures [found] result2 == nil ==> wanOk(path) && known(s, wanW(path), wanA(path)) && result1 != nil && result1 == accountByName(s, wanW(path), wanA(path)) && result0 != nil && result0 == s.wallets[wanW(path)] && result0 == walletOf(result1)
